@@ -19,3 +19,7 @@ type VerifEviction struct {
 func VerifEvictLayout(maximum, newMax uint64, nodes []VerifEvictNode) ([]VerifEviction, map[int]uint64, map[int]string, bool) {
 	return nil, nil, nil, false
 }
+
+func VerifEvictLayoutRetire(maximum, newMax uint64, nodes []VerifEvictNode, retireKey, afterN int) ([]VerifEviction, map[int]uint64, map[int]string, bool) {
+	return nil, nil, nil, false
+}
